@@ -17,8 +17,11 @@ What the code's true invariant is (differences to the plain reading of the prope
   (`C18_limits` counts non-persistent peers per host; `persistent_exempt` below);
 * `outboundGroups` is decremented only for peers with `VersionKnown()` — true for every
   peer the server adds (`AddPeer` is called from `OnVersion`), an assumption of `Valid`;
-* the outbound target is NOT kept when `BanAddress` is configured (as the server does):
-  see `C18_target_partial` / `C18_target_counterexample` (finding R-C18, docs/findings/C18.md).
+* two defects found by this check are repaired in /repo (docs/findings/C18.md): R-C18 (the
+  outbound slot was lost after `BanAddress`; now `C18_target` holds at full strength for both
+  configurations, `C18_target_after_ban` is the former counterexample turned regression) and
+  R-C18-b (an outbound peer answering with two `version` messages was added twice — the
+  assumption `Valid` was not met by `peer.go`; its witness is a regression scenario of the harness).
 -/
 import BHS.Gen.PeerConsts
 import BHS.Proofs.Peers
@@ -263,35 +266,35 @@ theorem C18_target_never_exceeded (c : Cfg) (evs : List Event) :
   simp only [tot] at this
   omega
 
-/-- **Slot accounting** (both configurations, the events the server produces: `Disconnect` of
-established connections only): every one of the `target` slots is an established connection,
-a request being dialled, or was given up after a `BanAddress` call (`lost`). -/
-theorem C18_target_slots (c : Cfg) (evs : List Event) (ha : AdmAll c (start c) evs) :
-    (run c (start c) evs).conns.length + (run c (start c) evs).live.length + lost (run c (start c) evs) = c.target :=
-  (run_eq evs (start c) (wf_start c) ha (tot_start c)).2
-
-/-- **Target kept — full strength, `BanAddress` not configured.** After any sequence of dial
-failures, connections and disconnections: `established + in flight = target`; hence never
+/-- **Target kept — full strength, with and without `BanAddress`.** After any sequence of dial
+failures, address errors, connections, bans and disconnections (the events the server produces:
+`Disconnect` of established connections only): `established + in flight = target`; hence never
 more than the target, and while fewer than `target` connections are established a request is
 in flight (it keeps asking for addresses and dialling). -/
-theorem C18_target (c : Cfg) (hb : c.banAddr = false) (evs : List Event) (ha : AdmAll c (start c) evs) :
+theorem C18_target (c : Cfg) (evs : List Event) (ha : AdmAll c (start c) evs) :
     (run c (start c) evs).conns.length + (run c (start c) evs).live.length = c.target ∧
     (run c (start c) evs).conns.length ≤ c.target ∧
     ((run c (start c) evs).conns.length < c.target → (run c (start c) evs).live ≠ []) := by
-  have h := C18_target_slots c evs ha
-  have hbn : (run c (start c) evs).banned = [] := by
-    rw [banned_run_noBan hb, start, banned_spawnN]
-  have hl : lost (run c (start c) evs) = 0 := by
-    unfold lost; split <;> simp [hbn]
+  have h := (run_eq evs (start c) (wf_start c) ha (tot_start c)).2
+  simp only [tot, lost_eq_zero] at h
   refine ⟨by omega, by omega, ?_⟩
   intro hlt hnil
   rw [hnil] at h
   simp only [List.length_nil] at h
   omega
 
-/-- **Replacement of a closed connection** (`BanAddress` not configured): when an established
-connection is disconnected, one more request is in flight afterwards. -/
-theorem C18_target_replacement (c : Cfg) (hb : c.banAddr = false) (evs : List Event) (ha : AdmAll c (start c) evs)
+/-- the same for the server's configuration (regenerated `maxFailedAttempts`, default target, `BanAddress` set). -/
+theorem C18_target_server (target : Nat) (evs : List Event)
+    (ha : AdmAll (serverConn target true) (start (serverConn target true)) evs) :
+    (run (serverConn target true) (start (serverConn target true)) evs).conns.length +
+      (run (serverConn target true) (start (serverConn target true)) evs).live.length
+      = effTarget Gen.defaultTargetOutbound target :=
+  (C18_target _ evs ha).1
+
+/-- **Replacement of a closed connection**: when an established connection is disconnected, one
+more request is in flight afterwards (also when that disconnect makes the address reach
+`maxFailedAttempts` and it is banned). -/
+theorem C18_target_replacement (c : Cfg) (evs : List Event) (ha : AdmAll c (start c) evs)
     (id : Nat) (hc : hasConn (run c (start c) evs) id = true) (hl : id ∉ (run c (start c) evs).live) :
     (step c (run c (start c) evs) (.disc id true)).conns.length + 1 = (run c (start c) evs).conns.length ∧
     (step c (run c (start c) evs) (.disc id true)).live.length = (run c (start c) evs).live.length + 1 := by
@@ -303,8 +306,8 @@ theorem C18_target_replacement (c : Cfg) (hb : c.banAddr = false) (evs : List Ev
       | nil => intro s _ h; exact ⟨h, trivial⟩
       | cons e es ih => intro s h1 h2; exact ⟨h1.1, ih _ h1.2 h2⟩
     exact this evs _ ha ⟨hl, fun _ => rfl⟩
-  have h1 := (C18_target c hb evs ha).1
-  have h2 := (C18_target c hb (evs ++ [.disc id true]) hadm).1
+  have h1 := (C18_target c evs ha).1
+  have h2 := (C18_target c (evs ++ [.disc id true]) hadm).1
   have hrun : run c (start c) (evs ++ [.disc id true]) = step c (run c (start c) evs) (.disc id true) := by
     simp [run, List.foldl_append]
   rw [hrun] at h2
@@ -313,51 +316,9 @@ theorem C18_target_replacement (c : Cfg) (hb : c.banAddr = false) (evs : List Ev
   have hconns : (step c (run c (start c) evs) (.disc id true)).conns.length + 1 = (run c (start c) evs).conns.length := by
     generalize run c (start c) evs = s at *
     have hlt : (s.conns.filter (fun x => x.1 != id)).length < c.target := by omega
-    simp only [step, hc, ↓reduceIte, hlt]
-    unfold failedConn
-    split
-    · rename_i hx; rw [hb] at hx; cases hx
-    · simp only [spawn]; exact h3
+    simp only [step, hc, ↓reduceIte, hlt, conns_failedConn]
+    exact h3
   omega
-
-/-
-Full-strength statement for the server's configuration — FALSE on the unchanged code (R-C18):
-
-  theorem C18_target_with_ban (c : Cfg) (hb : c.banAddr = true) (evs) (ha : AdmAll c (start c) evs) :
-      (run c (start c) evs).conns.length + (run c (start c) evs).live.length = c.target
-
-`registerFailedConnectionTo` bans the address after `maxFailedAttempts` failures and returns
-without scheduling a new request. Proved instead: `C18_target_slots` (exact accounting incl.
-the lost slots), `C18_target_partial` (hypothesis: `BanAddress` was never called, i.e. no
-address reached `maxFailedAttempts`) and `C18_target_counterexample`.
--/
-
-/-- **Target kept — `BanAddress` configured, as long as it was never invoked** (no address
-reached `maxFailedAttempts` consecutive failures). -/
-theorem C18_target_partial (c : Cfg) (evs : List Event) (ha : AdmAll c (start c) evs)
-    (hnoban : (run c (start c) evs).banned = []) :
-    (run c (start c) evs).conns.length + (run c (start c) evs).live.length = c.target ∧
-    ((run c (start c) evs).conns.length < c.target → (run c (start c) evs).live ≠ []) := by
-  have h := C18_target_slots c evs ha
-  have hl : lost (run c (start c) evs) = 0 := by
-    unfold lost; split <;> simp [hnoban]
-  refine ⟨by omega, ?_⟩
-  intro hlt hnil
-  rw [hnil] at h
-  simp only [List.length_nil] at h
-  omega
-
-/-- a state with no connection and no request in flight stays so under every event -/
-theorem dead_step (c : Cfg) (s : St) (e : Event) (h : s.conns = [] ∧ s.live = []) :
-    (step c s e).conns = [] ∧ (step c s e).live = [] := by
-  cases e <;> simp [step, hasConn, h.1, h.2] <;> split <;> simp [h.1, h.2]
-
-theorem dead_run (c : Cfg) : ∀ (evs : List Event) (s : St), s.conns = [] ∧ s.live = [] →
-    (run c s evs).conns = [] ∧ (run c s evs).live = [] := by
-  intro evs
-  induction evs with
-  | nil => intro s h; exact h
-  | cons e es ih => intro s h; exact ih _ (dead_step c s e h)
 
 instance (s : St) (e : Event) : Decidable (Adm s e) := by
   cases e <;> unfold Adm <;> infer_instance
@@ -368,44 +329,35 @@ instance decAdmAll (c : Cfg) : (s : St) → (evs : List Event) → Decidable (Ad
     unfold AdmAll
     exact @instDecidableAnd _ _ _ (decAdmAll c (step c s e) es)
 
-/-- the witness of R-C18: one outbound slot, `BanAddress` configured, the same address refuses
-`maxFailedAttempts` times in a row (request ids 1, 2, …) -/
+/-- the witness of the repaired defect R-C18: one outbound slot, `BanAddress` configured, the same
+address refuses `maxFailedAttempts` times in a row (request ids 1, 2, …) -/
 def witness : List Event := (List.range Gen.maxFailedAttempts).map (fun i => Event.dialFail (i + 1) 0)
 
-/-- **Counterexample (R-C18).** Server configuration, target 1: after `maxFailedAttempts`
-refusals of one address the manager has called `BanAddress` once, holds no connection, has NO
-request in flight — and no later event whatsoever makes it dial again. The outbound slot is lost. -/
-theorem C18_target_counterexample :
+/-- **Regression of R-C18** (the former counterexample, evaluated on the model of the repaired
+code): after `maxFailedAttempts` refusals of one address the manager has called `BanAddress`
+once and a further request IS in flight. (Before the repair: `live = []` for ever.) -/
+theorem C18_target_after_ban :
     let c := serverConn 1 true
     AdmAll c (start c) witness ∧
     (run c (start c) witness).dials = Gen.maxFailedAttempts ∧
     (run c (start c) witness).banned = [0] ∧
-    ∀ more : List Event,
-      (run c (start c) (witness ++ more)).conns.length + (run c (start c) (witness ++ more)).live.length = 0 ∧
-      (run c (start c) (witness ++ more)).conns.length < c.target := by
-  intro c
-  have hd : (run c (start c) witness).conns = [] ∧ (run c (start c) witness).live = [] := by decide
-  refine ⟨by decide, by decide, by decide, ?_⟩
-  intro more
-  have := dead_run c more _ hd
-  have hr : run c (start c) (witness ++ more) = run c (run c (start c) witness) more := by
-    simp [run, List.foldl_append]
-  rw [hr, this.1, this.2]
+    (run c (start c) witness).live.length = 1 := by
   decide
 
 /-! ### non-vacuity -/
 private def cc (b : Bool) : Cfg := { target := 2, banAddr := b, maxFailed := 3 }
--- an admissible history with failures, connections, a disconnect: hypotheses of C18_target / _slots / _replacement
+-- an admissible history with failures, connections, a disconnect: hypotheses of C18_target / _replacement
 private def k1 : List Event := [.dialFail 1 0, .dialOk 2 5, .addrFail 3, .dialOk 4 6, .disc 2 true, .dialOk 5 7]
 example : AdmAll (cc false) (start (cc false)) k1 := by decide
 example : (run (cc false) (start (cc false)) k1).conns = [(4, 6), (5, 7)] := by decide
 example : hasConn (run (cc false) (start (cc false)) (k1.take 4)) 2 = true ∧ 2 ∉ (run (cc false) (start (cc false)) (k1.take 4)).live := by decide
--- with BanAddress and no ban yet the partial theorem applies (non-trivially: failures happened)
-example : AdmAll (cc true) (start (cc true)) k1 ∧ (run (cc true) (start (cc true)) k1).banned = [] ∧
-    (run (cc true) (start (cc true)) k1).fails 0 = 1 := by decide
--- three refusals of address 0: one ban, one slot lost, the other slot still served (C18_target_slots with lost = 1)
+example : AdmAll (cc true) (start (cc true)) k1 ∧ (run (cc true) (start (cc true)) k1).fails 0 = 1 := by decide
+-- three refusals of address 0 with BanAddress: one ban, and both slots are still being served
 example : let s := run (cc true) (start (cc true)) [.dialFail 1 0, .dialFail 3 0, .dialFail 4 0]
-    s.banned = [0] ∧ lost s = 1 ∧ s.live = [2] ∧ s.conns = [] := by decide
+    s.banned = [0] ∧ s.live = [2, 5] ∧ s.conns = [] := by decide
+-- a disconnect that makes the address reach the threshold: banned AND replaced (C18_target_replacement with a ban)
+example : let s := run (cc true) (start (cc true)) [.dialOk 1 0, .dialFail 2 0, .dialFail 3 0, .disc 1 true]
+    s.banned = [0] ∧ s.conns = [] ∧ s.live.length = 2 := by decide
 example : (serverConn 0 true).target = Gen.defaultTargetOutbound ∧ (serverConn 3 true).target = 3 := by decide
 
 end connmgr
